@@ -339,4 +339,123 @@ Proof.
   destruct s1 as [ve le h nx log]. dr_open Hs1.
   eexists. split; [cbv [dr_last]; unfold lexec; lsym; reflexivity|]. split; [lsym; reflexivity | exact Hlog1].
 Qed.
+
+(* ---- the index-function formulas are the list model of C11/Model.v ---- *)
+Definition ofl (l : list Rvec) : nat -> Rvec := fun i => nth i l [].
+Lemma nth_map_combine {A B} (f : A * B -> Rvec) (dA : A) (dB : B) : forall (l1 : list A) (l2 : list B) (i : nat),
+  (i < List.length l1)%nat -> (i < List.length l2)%nat ->
+  nth i (map f (combine l1 l2)) [] = f (nth i l1 dA, nth i l2 dB).
+Proof.
+  induction l1 as [|a l1 IH]; intros [|b l2] i H1 H2; cbn [List.length] in *; try lia.
+  destruct i as [|i]; cbn [combine map nth]; [reflexivity | apply IH; lia].
+Qed.
+Lemma length_map_combine {A B C} (f : A * B -> C) (l1 : list A) (l2 : list B) :
+  List.length l1 = List.length l2 -> List.length (map f (combine l1 l2)) = List.length l1.
+Proof. intros E. rewrite map_length, combine_length, E. apply Nat.min_id. Qed.
+
+Lemma acc_adj_fold (vsl : list Rvec) : List.length vsl = dr_n -> forall rem j0 a, (j0 + rem = dr_n)%nat ->
+  acc_adj (fun i => dr_Ladj (dro i) (ofl vsl i)) j0 rem a
+  = fold_left (fun acc ov => vadd acc (dr_Ladj (fst ov) (snd ov))) (combine (skipn j0 ops) (skipn j0 vsl)) a.
+Proof.
+  intros Hl. induction rem as [|rem IH]; intros j0 a Hn; cbn [acc_adj].
+  - unfold dr_n in *. rewrite !skipn_all2 by lia. reflexivity.
+  - rewrite (skipn_nth_cons ops dflt j0) by (unfold dr_n in *; lia).
+    rewrite (skipn_nth_cons vsl [] j0) by lia. cbn [combine fold_left fst snd]. apply IH. lia.
+Qed.
+Lemma dr_adjsum_idx (vsl : list Rvec) : List.length vsl = dr_n -> dr_adjsum ops vsl = Some (dr_adj0 (ofl vsl)).
+Proof.
+  intros Hl. unfold dr_adj0. rewrite (acc_adj_fold vsl Hl) by lia.
+  unfold dr_n in *. destruct ops as [|o ops'] eqn:Eo; [cbn in nonempty; lia|]. destruct vsl as [|v vsl']; [cbn in Hl; lia|].
+  cbn [dr_adjsum skipn]. unfold dro, ofl. rewrite Eo. reflexivity.
+Qed.
+
+Lemma dr_half1_idx k x (vsl : list Rvec) : List.length vsl = dr_n ->
+  dr_half1 proxf tau lam ops k x vsl = (dr_p1a x (ofl vsl), dr_w1a x (ofl vsl), dr_x1 k x (ofl vsl)).
+Proof. intros Hl. unfold dr_half1. rewrite (dr_adjsum_idx vsl Hl). reflexivity. Qed.
+
+Lemma dr_half2_idx k w1 x1 (vsl : list Rvec) : List.length vsl = dr_n ->
+  let '(x2, vsl') := dr_half2 tau lam ops k w1 x1 vsl in
+  x2 = vlin 1 x1 (lam k) (dr_z1b' (ofl vsl) w1) /\ List.length vsl' = dr_n
+  /\ forall i, (i < dr_n)%nat ->
+       nth i vsl' [] = dr_Vf k (ofl vsl) (dr_Pf (ofl vsl) w1) (dr_Wf (ofl vsl) w1) (dr_p1b' (ofl vsl) w1) i.
+Proof.
+  intros Hl. unfold dr_half2.
+  set (p2s := map _ (combine ops vsl)). set (w2s := map _ (combine p2s vsl)).
+  assert (Lp : List.length p2s = dr_n) by (unfold p2s; rewrite length_map_combine; unfold dr_n in *; lia).
+  assert (Lw : List.length w2s = dr_n) by (unfold w2s; rewrite length_map_combine; lia).
+  assert (Np : forall i, (i < dr_n)%nat -> nth i p2s [] = dr_Pf (ofl vsl) w1 i).
+  { intros i Hi. unfold p2s. rewrite (nth_map_combine _ dflt []) by (unfold dr_n in *; lia). reflexivity. }
+  assert (Nw : forall i, (i < dr_n)%nat -> nth i w2s [] = dr_Wf (ofl vsl) w1 i).
+  { intros i Hi. unfold w2s. rewrite (nth_map_combine _ [] []) by lia. cbn [fst snd]. rewrite Np by exact Hi. reflexivity. }
+  rewrite (dr_adjsum_idx w2s Lw).
+  assert (Ea : dr_adj0 (ofl w2s) = dr_adj0 (dr_Wf (ofl vsl) w1)).
+  { unfold dr_adj0, ofl. rewrite Nw by lia. apply acc_adj_ext. intros i H1 H2. rewrite Nw by lia. reflexivity. }
+  rewrite Ea. split; [reflexivity|]. split.
+  - rewrite map_length, !combine_length. unfold dr_n in *. lia.
+  - intros i Hi.
+    rewrite (nth_map_combine _ (dflt, [], []) []) by (rewrite ?combine_length; unfold dr_n in *; lia).
+    assert (E3 : nth i (combine (combine ops w2s) p2s) (dflt, [], []) = (nth i ops dflt, nth i w2s [], nth i p2s [])).
+    { rewrite combine_nth by (rewrite combine_length; unfold dr_n in *; lia).
+      rewrite combine_nth by (unfold dr_n in *; lia). reflexivity. }
+    rewrite E3. rewrite (no_l i ltac:(unfold dr_n in *; lia)). rewrite Nw, Np by exact Hi. reflexivity.
+Qed.
+
+Lemma dr_step_idx k x (vsl : list Rvec) : List.length vsl = dr_n ->
+  dr_p1 proxf tau lam ops k (x, vsl) = dr_p1a x (ofl vsl)
+  /\ let '(x2, vsl') := dr_step proxf tau lam ops k (x, vsl) in
+     x2 = dr_x2 k x (ofl vsl) /\ List.length vsl' = dr_n
+     /\ forall i, (i < dr_n)%nat -> nth i vsl' [] = dr_vs' k x (ofl vsl) i.
+Proof.
+  intros Hl. unfold dr_p1, dr_step. cbn [fst snd]. rewrite (dr_half1_idx k x vsl Hl). split; [reflexivity|].
+  exact (dr_half2_idx k (dr_w1a x (ofl vsl)) (dr_x1 k x (ofl vsl)) vsl Hl).
+Qed.
+
+Lemma dr_st_ext s x vs vs2 P2 W2 p1 z1 w1 :
+  dr_st s x vs P2 W2 p1 z1 w1 -> (forall i, (i < dr_n)%nat -> vs i = vs2 i) -> dr_st s x vs2 P2 W2 p1 z1 w1.
+Proof.
+  intros Hs E. destruct s as [ve le h nx log]. dr_open Hs. unfold dr_st. cbn [l_venv l_lenv l_heap].
+  repeat split; auto. intros i Hi. rewrite <- E by exact Hi. auto.
+Qed.
+
+(* ---- the main loop: niter - 1 full iterations, then the last one returns after x.assign(p1) ---- *)
+Fixpoint dr_gen_loop (n k0 : nat) (s : @lst R) : option (@lst R) :=
+  match n with
+  | O => Some s
+  | S m => match m with
+           | O => litems_last (drI k0) rkey dr_n true douglas_rachford_pd_lbody s
+           | S _ => obind (litems_last (drI k0) rkey dr_n false douglas_rachford_pd_lbody s) (dr_gen_loop m (S k0))
+           end
+  end.
+Lemma last_cons_indep (b : Rvec) (l : list Rvec) (d1 d2 : Rvec) : last (b :: l) d1 = last (b :: l) d2.
+Proof. revert b; induction l as [|c l IH]; intros b; [reflexivity|]. cbn [last] in *. apply IH. Qed.
+Lemma dr_gen_loop_ok : forall n k0 s x vsl P2 W2 p1 z1 w1, (1 <= n)%nat ->
+  dr_st s x (ofl vsl) P2 W2 p1 z1 w1 -> List.length vsl = dr_n ->
+  exists s', dr_gen_loop n k0 s = Some s'
+    /\ l_log s' = (l_log s ++ dr_trace proxf tau lam ops n k0 (x, vsl))%list
+    /\ hget (l_heap s') (OCaller "x") = Some (last (dr_trace proxf tau lam ops n k0 (x, vsl)) x).
+Proof.
+  induction n as [|n IH]; intros k0 s x vsl P2 W2 p1 z1 w1 Hn Hs Hl; [lia|].
+  destruct (dr_step_idx k0 x vsl Hl) as (Ep1 & Hstep).
+  destruct n as [|n].
+  - cbn [dr_gen_loop dr_trace]. destruct (dr_iter_last k0 s x (ofl vsl) P2 W2 p1 z1 w1 Hs) as (s' & E & Hx & Hlog).
+    exists s'. split; [exact E|]. rewrite Ep1. cbn [last]. split; [exact Hlog | exact Hx].
+  - change (dr_gen_loop (S (S n)) k0 s)
+      with (obind (litems_last (drI k0) rkey dr_n false douglas_rachford_pd_lbody s) (dr_gen_loop (S n) (S k0))).
+    destruct (dr_iter_nonlast k0 s x (ofl vsl) P2 W2 p1 z1 w1 Hs)
+      as (s1 & vs' & P2' & W2' & p1' & z1' & w1' & E1 & Hs1 & Hlog1 & Hvs').
+    rewrite E1. cbn [obind].
+    destruct (dr_step proxf tau lam ops k0 (x, vsl)) as [x2 vsl'] eqn:Est.
+    destruct Hstep as (-> & Hl' & Hn').
+    assert (Hs1' : dr_st s1 (dr_x2 k0 x (ofl vsl)) (ofl vsl') P2' W2' p1' z1' w1').
+    { apply (dr_st_ext _ _ vs'); [exact Hs1|]. intros i Hi. unfold ofl. rewrite Hn', Hvs' by exact Hi. reflexivity. }
+    destruct (IH (S k0) s1 _ vsl' P2' W2' p1' z1' w1' ltac:(lia) Hs1' Hl') as (s2 & E2 & Hlog2 & Hx2).
+    exists s2. split; [exact E2|].
+    change (dr_trace proxf tau lam ops (S (S n)) k0 (x, vsl))
+      with (dr_p1 proxf tau lam ops k0 (x, vsl) :: dr_trace proxf tau lam ops (S n) (S k0) (dr_step proxf tau lam ops k0 (x, vsl))).
+    rewrite Est, Ep1. split.
+    + rewrite Hlog2, Hlog1, <- app_assoc. reflexivity.
+    + rewrite Hx2. cbn [dr_trace]. f_equal.
+      match goal with |- last (?b :: ?l) ?d2 = last (?a :: ?b :: ?l) ?d1 => change (last (a :: b :: l) d1) with (last (b :: l) d1) end.
+      apply last_cons_indep.
+Qed.
 End DRsweep.
